@@ -117,6 +117,8 @@ def lc_show(x) -> str:
             _, name, adj, sw = k
             s = f'"{name}"' + (".adj" if adj else "") + ("@swapped" if sw else "")
             return s
+        if k[0] == "badcall":
+            return f"<malformed call `{k[2]}`>"
         if k[0] == "call":
             _, f, arg = k
             if arg and arg[0] == "series":
@@ -131,6 +133,10 @@ def lc_show(x) -> str:
 # ---------------------------------------------------------------------------
 
 
+class Disagreement(Exception):
+    """The generated code is understood and is not what the definition says."""
+
+
 class GenInterp:
     def __init__(self, cls: str, offdiag_given: bool, flags: dict, where: str):
         self.cls, self.og, self.flags, self.where = cls, offdiag_given, flags, where
@@ -138,18 +144,23 @@ class GenInterp:
         self.header_ok = False
 
     def test(self, t: ast.AST):
-        txt = norm(t)
-        table = {
-            "index[0] == index[1]": self.cls == "diagonal",
-            "index[0] != index[1]": self.cls != "diagonal",
-            "index[0] > index[1]": self.cls == "lower",
-            "offdiag is not None": self.og,
-        }
-        if isinstance(t, ast.BoolOp) and isinstance(t.op, ast.And):
-            return all(self.test(v) for v in t.values)
-        if txt in table:
-            return table[txt]
-        raise AnalysisError(RULE, f"{self.where}: generated test `{txt}` not understood")
+        if isinstance(t, ast.BoolOp):
+            vals = [self.test(v) for v in t.values]
+            return all(vals) if isinstance(t.op, ast.And) else any(vals)
+        if isinstance(t, ast.UnaryOp) and isinstance(t.op, ast.Not):
+            return not self.test(t.operand)
+        if isinstance(t, ast.Compare) and len(t.ops) == 1:
+            l, r, op = norm(t.left), norm(t.comparators[0]), t.ops[0]
+            rep = {"diagonal": (1, 1), "upper": (0, 1), "lower": (1, 0)}[self.cls]
+            val = {"index[0]": rep[0], "index[1]": rep[1]}
+            if l in val and r in val:
+                a, b = val[l], val[r]
+                fn = {ast.Eq: a == b, ast.NotEq: a != b, ast.Gt: a > b, ast.GtE: a >= b, ast.Lt: a < b, ast.LtE: a <= b}.get(type(op))
+                if fn is not None:
+                    return fn
+            if l == "offdiag" and r == "None" and isinstance(op, (ast.Is, ast.IsNot)):
+                return (not self.og) if isinstance(op, ast.Is) else self.og
+        raise AnalysisError(RULE, f"{self.where}: generated test `{norm(t)}` not understood")
 
     def flag(self, t: ast.AST) -> bool:
         txt = norm(t)
@@ -166,8 +177,14 @@ class GenInterp:
         txt = norm(sl)
         if txt == "index":
             return False
-        if txt == SWAPPED or txt == SWAPPED[1:-1]:
-            return self.cls != "diagonal"
+        if isinstance(sl, ast.Tuple) and len(sl.elts) == 3 and isinstance(sl.elts[2], ast.Starred) and norm(sl.elts[2].value) == "index[2:]":
+            a, b = norm(sl.elts[0]), norm(sl.elts[1])
+            if (a, b) == ("index[1]", "index[0]"):
+                return self.cls != "diagonal"
+            if (a, b) == ("index[0]", "index[1]"):
+                return False
+            if a in ("index[0]", "index[1]") and b in ("index[0]", "index[1]"):
+                raise Disagreement(f"block index ({a}, {b}) is neither the requested block nor its transpose")
         raise AnalysisError(RULE, f"{self.where}: index expression `{txt}` not understood")
 
     def ev(self, e: ast.AST):
@@ -197,7 +214,7 @@ class GenInterp:
                 if isinstance(d, ast.UnaryOp) and isinstance(d.op, ast.USub):
                     neg, d = True, d.operand
                 if not (isinstance(d, ast.Constant) and isinstance(d.value, int) and d.value != 0):
-                    raise AnalysisError(RULE, f"{self.where}: divisor `{norm(e.args[1])}`")
+                    raise Disagreement(f"division by `{norm(e.args[1])[:60]}` (the definition divides by an integer constant)")
                 return lc_scale(self.ev(e.args[0]), Fr(1, -d.value if neg else d.value))
             if name == "Dagger" and len(e.args) == 1:
                 inner = self.ev(e.args[0])
@@ -379,11 +396,18 @@ def rule_translation(rep: Report, repo: Repo, which=("main", "nonhermitian", "do
                     for og in (False, True):
                         where = f"{pname}::{sname}[{cls},offdiag={'given' if og else 'None'}]"
                         gi = GenInterp(cls, og, flags, where)
-                        got = gi.run(gfunc)
-                        if got is None:
-                            raise AnalysisError(RULE, f"{where}: generated eval has a path without return")
                         want = reference(prog, sname, cls, og, flags)
                         checked += 1
+                        try:
+                            got = gi.run(gfunc)
+                        except Disagreement as dis:
+                            branch = {"diagonal": "diagonal", "upper": "offdiagonal", "lower": "lower"}[cls]
+                            rep.fail(RULE, f"{pname}::{sname}[{branch}{',offdiag given' if og and cls == 'diagonal' else ''}] compiled code differs from the definition: {dis}",
+                                     f"reference: {lc_show(want)[:300]}", loc)
+                            continue
+                        if got is None:
+                            rep.fail(RULE, f"{pname}::{sname}[{cls}] compiled eval can end without returning the accumulated result", "", loc)
+                            continue
                         if not header_checked:
                             header_checked = True
                             rep.check(gi.header_ok, RULE, f"{pname}::{sname} eval selects `which` by use_linear_operator[index[:2]] and starts from zero", "", loc)
@@ -396,7 +420,7 @@ def rule_translation(rep: Report, repo: Repo, which=("main", "nonhermitian", "do
                             detail = f"compiled: {lc_show(got)[:300]} ; reference: {lc_show(want)[:300]}"
                             if bad:
                                 detail = f"scope function called without the series/index convention: `{bad[0][2][:120]}`; " + detail
-                            rep.fail(RULE, f"{pname}::{sname}[{branch}{',offdiag given' if og and cls == 'diagonal' else ''}] compiled code differs from the definition",
+                            rep.fail(RULE, f"{pname}::{sname}[{branch}{',offdiag given' if og and cls == 'diagonal' else ''}] compiled `{lc_show(got)}` but the definition says `{lc_show(want)}`",
                                      f"flags {fl}: {detail}", loc)
                         # deletion safety
                         for term, _sw in gi.deletes:
